@@ -64,9 +64,10 @@
 //!   outputs, two witnesses, non-empty body) every dimension ranges over its FULL domain
 //!   while the other four sit at the base point; plus all 35 (input kind, output kind)
 //!   pairs per kind; plus 1,296 Mint values. ≈ 5.8 k transactions, returned as a `Vec`.
-//! * `Full`  — the full product `P × I × O × W × Bfull(kind)` for every kind
-//!   ([`body_full`]: all body points except Script, which uses 4 of its 200), plus
-//!   Mint. ≈ 1.1 × 10^9 values — indexable only (`tx_at`), never materialised.
+//! * `Full`  — the full product `kind × P × I × O × W × {b0 body, b1 body}`
+//!   ([`body_full`]; the body dimension is exhausted by the star level), plus Mint:
+//!   301,267,728 values — indexable only (`tx_at`), never materialised. Kind varies
+//!   fastest, policies slowest, so a prefix covers all kinds.
 //!
 //! Validity: the corpus is a *wire-format* corpus. NO transaction in it is claimed to
 //! pass `check`/`check_without_signatures`: predicate owners are patterns instead of
@@ -1015,13 +1016,12 @@ pub fn tx_dims(kind: usize) -> [u64; 5] {
     [N_POLICIES, N_INPUT_LISTS, N_OUTPUT_LISTS, N_WITNESS_LISTS, body_dim(kind)]
 }
 
-/// Body points used by the Full product.
-pub fn body_full(kind: usize) -> Vec<u64> {
-    match kind {
-        // (script len, data len, class): (0,0,0) (5,3,1) (8,1,0) (1,8,1)
-        0 => vec![0, 5 + 3 * 10 + 100, 8 + 10, 1 + 8 * 10 + 100],
-        k => (0..body_dim(k)).collect(),
-    }
+/// Body points used by the Full product: the body index of the two star base points
+/// (`b0` empty body, `b1` rich body). The body dimension is covered completely by the
+/// star level; it does not interact with the other four dimensions.
+pub fn body_full(kind: usize) -> [u64; 2] {
+    let bp = base_points(kind);
+    [bp[0][4], bp[1][4]]
 }
 
 fn u16_class(c: u64, pos: u8) -> u16 {
@@ -1241,15 +1241,13 @@ fn star_points() -> &'static Vec<TxPoint> {
     })
 }
 
-fn full_kind_count(kind: usize) -> u64 {
-    N_POLICIES * N_INPUT_LISTS * N_OUTPUT_LISTS * N_WITNESS_LISTS * body_full(kind).len() as u64
-}
+const FULL_CHARGEABLE: u64 = 6 * 2 * N_WITNESS_LISTS * N_OUTPUT_LISTS * N_INPUT_LISTS * N_POLICIES;
 
 /// Number of transactions at `level`.
 pub fn tx_count(level: CorpusLevel) -> u64 {
     match level {
         CorpusLevel::Star => star_points().len() as u64,
-        CorpusLevel::Full => (0..TX_KINDS.len()).map(full_kind_count).sum::<u64>() + mint_count(),
+        CorpusLevel::Full => FULL_CHARGEABLE + mint_count(),
     }
 }
 
@@ -1258,29 +1256,29 @@ pub fn tx_point(level: CorpusLevel, idx: u64) -> TxPoint {
     match level {
         CorpusLevel::Star => star_points()[idx as usize],
         CorpusLevel::Full => {
-            let mut rest = idx;
-            for kind in 0..TX_KINDS.len() {
-                let n = full_kind_count(kind);
-                if rest < n {
-                    // witnesses vary fastest, then outputs, inputs, policies, body
-                    let w = rest % N_WITNESS_LISTS;
-                    rest /= N_WITNESS_LISTS;
-                    let o = rest % N_OUTPUT_LISTS;
-                    rest /= N_OUTPUT_LISTS;
-                    let i = rest % N_INPUT_LISTS;
-                    rest /= N_INPUT_LISTS;
-                    let p = rest % N_POLICIES;
-                    rest /= N_POLICIES;
-                    let b = body_full(kind)[rest as usize];
-                    return TxPoint::Chargeable {
-                        kind,
-                        ix: [p, i, o, w, b],
-                    }
-                }
-                rest -= n;
+            if idx >= FULL_CHARGEABLE {
+                let rest = idx - FULL_CHARGEABLE;
+                assert!(rest < mint_count(), "tx index out of range");
+                return TxPoint::Mint { idx: rest }
             }
-            assert!(rest < mint_count(), "tx index out of range");
-            TxPoint::Mint { idx: rest }
+            // kind varies fastest, then body point, witnesses, outputs, inputs; policies
+            // slowest — so any prefix of the enumeration covers every kind
+            let mut rest = idx;
+            let kind = (rest % 6) as usize;
+            rest /= 6;
+            let b = body_full(kind)[(rest % 2) as usize];
+            rest /= 2;
+            let w = rest % N_WITNESS_LISTS;
+            rest /= N_WITNESS_LISTS;
+            let o = rest % N_OUTPUT_LISTS;
+            rest /= N_OUTPUT_LISTS;
+            let i = rest % N_INPUT_LISTS;
+            rest /= N_INPUT_LISTS;
+            let p = rest;
+            TxPoint::Chargeable {
+                kind,
+                ix: [p, i, o, w, b],
+            }
         }
     }
 }
@@ -1387,7 +1385,6 @@ pub fn spec_len_tx(tx: &Transaction) -> usize {
     use field::{
         Inputs,
         Outputs,
-        Policies as _,
         ProofSet,
         Script as _,
         ScriptData,
